@@ -28,7 +28,7 @@ type c01 struct{}
 func (c01) ID() string    { return "C01" }
 func (c01) Level() string { return "exploration" }
 func (c01) Rule() string {
-	return "(a) every attribute path of the schema (read from /repo/schema/compose-spec.json at run time) (plus the keys the code singles out below user-keyed mappings, read from path patterns in the sources of /repo) x 21 YAML node kinds (incl. two lists repeating their keys, an integral float, integers beyond int64 / uint32, a negative integer) placed at that path, as a single file, as a second document, as an override of the valid witness, as the base under a valid override, in an extended base, in an included file, and against the full corpus document as override / overridden / extending / extended / including / included; every pair of kinds as (base, override) and as (base service, service extending it in the same file) at the same path; the single-file matrix through loader.LoadModelWithContext, cli LoadProject and cli LoadModel; every scalar leaf of 8 full corpus documents replaced by 10 node kinds; every file-naming attribute pointed at 6 shapes of symbolic link (file, directory, dangling, self, loop, chain into a loop); the tags !reset / !override on 6 node shapes at every path and at the document root (single file, override of the full document, second document); (b) the single-file matrix under each of 10 load options flipped alone and all together (thorough: more option sets); (b') every pair of valid service attribute values of the three full corpus documents (whole, and cut down to each single child / grandchild of a mapping) on one service; (c) YAML alias/anchor cycles and merge keys, extends, include (every syntactic form of every edge incl. multi-path entries; 7 path spellings - relative, bare, through another directory, absolute, absolute with ., .. or // - of every edge of cycles of length 1..2; every load carries a listener that reports more than 5000 include/extends events as unbounded recursion) and depends_on cycles; (d) every {present, absent, directory-in-place} state vector of the files referenced by 5 scenarios, through the loader and through the cli entry point (override, extends chain, nested include with env files, env_file/label_file, cli .env); (e) every distance-1 byte edit (delete, insert/replace by 18 significant bytes) of 6 seed documents. Oracle: exactly one of project/error, no panic, no process death, no hang; cycles and missing required files are errors naming the file. distinct = distinct (position, kind, route, options) outcomes"
+	return "(a) every attribute path of the schema (read from /repo/schema/compose-spec.json at run time) (plus the keys the code singles out below user-keyed mappings, read from path patterns in the sources of /repo) x 21 YAML node kinds (incl. two lists repeating their keys, an integral float, integers beyond int64 / uint32, a negative integer) placed at that path, as a single file, as a second document, as an override of the valid witness, as the base under a valid override, in an extended base, in an included file, and against the full corpus document as override / overridden / extending / extended / including / included; every pair of kinds as (base, override) and as (base service, service extending it in the same file) at the same path; the single-file matrix through loader.LoadModelWithContext, cli LoadProject and cli LoadModel; every scalar leaf of 8 full corpus documents replaced by 10 node kinds; every file-naming attribute pointed at 6 shapes of symbolic link (file, directory, dangling, self, loop, chain into a loop); the tags !reset / !override on 6 node shapes at every path and at the document root (single file, override of the full document, second document); (b) the single-file matrix under each of 10 load options flipped alone and all together (thorough: more option sets); (b') every pair of valid service attribute values of the three full corpus documents (whole, and cut down to each single child / grandchild of a mapping) on one service; (c) YAML alias/anchor cycles and merge keys, extends, include (every syntactic form of every edge incl. multi-path entries; 7 path spellings - relative, bare, through another directory, absolute, absolute with ., .. or // - of every edge of cycles of length 1..2; every load carries a listener that reports more than 5000 include/extends events as unbounded recursion) and depends_on cycles; (d) every {present, absent, directory-in-place} state vector of the files referenced by 5 scenarios, through the loader and through the cli entry point (override, extends chain, nested include with env files, env_file/label_file, cli .env); (e) every distance-1 byte edit (delete, insert/replace by 18 significant bytes and 4 multi-byte characters) of 6 seed documents. Oracle: exactly one of project/error, no panic, no process death, no hang; cycles and missing required files are errors naming the file. distinct = distinct (position, kind, route, options) outcomes"
 }
 func (c01) Assumptions() []string {
 	return []string{
@@ -1099,7 +1099,12 @@ func c01bytes(c *core.Ctx) {
 		"profiles": corpus["profiles"].Files["compose.yaml"],
 		"networks": "services:\n  s:\n    image: i\n    networks:\n      n: {aliases: [a], ipv4_address: 10.0.0.2}\nnetworks:\n  n:\n    ipam:\n      config: [{subnet: 10.0.0.0/24}]\n",
 	}
-	edits := []byte(":-[]{}&*!|>#\"' \t\n\x00\xff$")
+	var edits []string
+	for _, e := range []byte(":-[]{}&*!|>#\"' \t\n\x00\xff$") {
+		edits = append(edits, string([]byte{e}))
+	}
+	// characters that take more than one byte: a symbol, a letter, a space, an ideograph
+	edits = append(edits, "€", "é", "\u00a0", "日")
 	for _, name := range sortedKeys(seeds) {
 		b := []byte(seeds[name])
 		if c.Quick() && len(b) > 220 {
@@ -1124,9 +1129,9 @@ func c01bytes(c *core.Ctx) {
 				run(fmt.Sprintf("bytes/%s/del%d", name, i), string(b[:i])+string(b[i+1:]))
 			}
 			for _, e := range edits {
-				run(fmt.Sprintf("bytes/%s/ins%d/%02x", name, i, e), string(b[:i])+string(e)+string(b[i:]))
+				run(fmt.Sprintf("bytes/%s/ins%d/%x", name, i, e), string(b[:i])+e+string(b[i:]))
 				if i < len(b) {
-					run(fmt.Sprintf("bytes/%s/rep%d/%02x", name, i, e), string(b[:i])+string(e)+string(b[i+1:]))
+					run(fmt.Sprintf("bytes/%s/rep%d/%x", name, i, e), string(b[:i])+e+string(b[i+1:]))
 				}
 			}
 		}
